@@ -119,16 +119,11 @@ def run(rep, tier):
             continue
         for fld in ("exit_funcs_", "ran_exit_funcs_"):
             lfl = LockFlow(f, alias={"pika::threads::detail::spinlock_pool::spinlock_for(this)": LOCK})
+            # no exemption: the callback is invoked with the spinlock released, so it has to be taken off the list
+            # (moved into a local, popped) while the lock is still held; reading exit_funcs_.front() inside the
+            # unlock_guard scope races with add_thread_exit_callback's push_front (a joiner registering while a
+            # user exit callback runs) - that was the defect repaired by the fix recorded in known_findings.json
             skip = set()
-            if name == "run_thread_exit_callbacks":
-                # named exemption: the callback must be *invoked* with the spinlock released (it may suspend), so
-                # the expression exit_funcs_.front() inside the unlock_guard scope reads the list unlocked.  With at
-                # most one joiner per thread (API contract, see ASSUMPTIONS) nobody modifies the list meanwhile.
-                for b, i, ev in f.all_events():
-                    if ev.get("k") == "read" and ev["e"].get("name") == fld and \
-                            precedes_on_all_paths(f, lambda e: e.get("k") == "ctor" and e.get("rec") == "pika::detail::unlock_guard", (b, i),
-                                                  reset_pred=lambda e: e.get("k") == "dtor" and e.get("rec") == "pika::detail::unlock_guard"):
-                        skip.add((b, i))
             n = check_guarded(rep, "C13.R3", f, TD, fld, lock_id=LOCK, flow=lfl, skip=skip)
             if n and name not in table:
                 raise AnalysisBroken("%s accesses %s but is not in the C13 table" % (f.qname, fld))
@@ -167,11 +162,33 @@ def run(rep, tier):
     else:
         rep.bad("C13.R3", run_, loc_of(wr[0][2]), "ran-flag", "'ran' is published on a path where the list was not just seen empty under the lock: a callback "
                 "added in the window is neither run nor refused")
-    calls = [(b, i, ev) for b, i, ev in run_.all_events() if ev.get("k") == "call" and ev.get("op") == "()" and "exit_funcs_.front()" in T(ev)]
-    if calls and all(LOCK not in (lfr.held_before((b, i)) or frozenset()) and "pika::threads::detail::spinlock_pool::spinlock_for(this)" not in (lfr.held_before((b, i)) or frozenset()) for b, i, ev in calls):
+    # the callables invoked here are the list's elements: either exit_funcs_.front() itself or a local
+    # initialised from it
+    from_list = {}
+    for b, i, ev in run_.all_events():
+        if ev.get("k") == "decl" and ev.get("init") is not None and "exit_funcs_" in T(ev["init"]):
+            from_list[ev.get("var")] = (b, i, ev)
+    calls = []
+    for b, i, ev in run_.all_events():
+        if ev.get("k") == "call" and ev.get("op") == "()":
+            recv = T(ev.get("recv")) if ev.get("recv") is not None else T(ev)
+            if "exit_funcs_.front()" in T(ev) or recv in from_list:
+                calls.append((b, i, ev, recv))
+    if calls and all(LOCK not in (lfr.held_before((b, i)) or frozenset()) and "pika::threads::detail::spinlock_pool::spinlock_for(this)" not in (lfr.held_before((b, i)) or frozenset()) for b, i, ev, _ in calls):
         rep.ok("C13.R3", run_, "callbacks are invoked with the spinlock released")
     else:
         rep.bad("C13.R3", run_, run_.loc, "callback-under-lock", "exit callbacks are invoked while holding the per-thread spinlock (or are not invoked at all)")
+    for b, i, ev, recv in calls:
+        d = from_list.get(recv)
+        is_ref = d is None or str(d[2].get("type", "")).rstrip().endswith("&")
+        popped = precedes_on_all_paths(run_, lambda e: e.get("k") == "call" and callee_short(e) == "pop_front" and "exit_funcs_" in T(e.get("recv")), (b, i),
+                                       reset_pred=lambda e: e.get("k") == "call" and callee_short(e) == "front" and "exit_funcs_" in T(e.get("recv")))
+        if not is_ref and popped:
+            rep.ok("C13.R3", run_, "the invoked callback is a local copy and was popped off the list before the lock was released")
+        else:
+            rep.bad("C13.R3", run_, loc_of(ev), "callback-in-list", "the exit callback is invoked while it is still the list's front element (%s): a callback "
+                    "registered meanwhile (push_front by a joiner) is popped in its place and never runs - join() hangs, the "
+                    "old callback runs twice" % ("invoked through a reference into the list" if is_ref else "not popped before the call"))
 
     # ---- R4
     dt = [f for f in J.find(r"^pika::jthread::~jthread$") if not f.pattern]
